@@ -331,6 +331,12 @@ func c18Storage(c *Ctx) {
 				if bi, ok := cv.Call.Value.(*ssa.Builtin); ok && bi.Name() == "append" {
 					return Render(cv)
 				}
+				// the derivation may live in one helper used by both (s.dbKey(key)): same helper, the caller's own key
+				if hf := cv.Call.StaticCallee(); hf != nil && InRepo(hf) && hf.Blocks != nil && hf.Signature.Recv() != nil && len(cv.Call.Args) == 2 {
+					if cv.Call.Args[0] == ssa.Value(fn.Params[0]) && cv.Call.Args[1] == ssa.Value(fn.Params[1]) && isByteSlice(cv.Type()) {
+						return "helper " + FuncShort(hf) + "(recv, key)"
+					}
+				}
 			}
 		}
 		return ""
